@@ -239,9 +239,7 @@ class _ImmutableTaskList:
         :param kwargs: task filters
         :return: list of matched tasks
         """
-        if key is not None:
-            if callable(key):
-                return _ImmutableTaskList([t for t in self if key(t)])
+        if key is not None and not callable(key):
             raise RuntimeError(f"Unsupported key type: {type(key)}")
 
         if kwargs is None:
@@ -306,7 +304,8 @@ class _ImmutableTaskList:
                     return False
             return True
 
-        return _ImmutableTaskList([t for t in self if search(t, **kwargs)])
+        # A callable key and keyword filters may be given together: a task must satisfy all of them
+        return _ImmutableTaskList([t for t in self if (key is None or key(t)) and search(t, **kwargs)])
 
     def order_by(self, key: Union[str, List[str]], reverse=False) -> '_ImmutableTaskList':
 
